@@ -1,17 +1,21 @@
 (* Model/Scan.v — executable model of wn.lmf.scan_lexicons and _unescape_attribute.
    (In this comment DQ stands for the double quote, SQ for the apostrophe, STAR for
-   the Kleene star: the regular expressions cannot be quoted literally inside a Coq
-   comment.)
+   the Kleene star, LAZY for the non-greedy star: the regular expressions cannot be
+   quoted literally inside a Coq comment.)
 
    def scan_lexicons(source):
        infos = []
-       lex_re  = re.compile(b'<(Lexicon|LexiconExtension|Extends)\b((?:[^>DQSQ]|DQ[^DQ]STAR DQ|SQ[^SQ]STAR SQ)STAR)>', flags=re.M)
-       attr_re = re.compile(b'\b(id|version|label)\sSTAR=\sSTAR(DQ[^DQ]STAR DQ|SQ[^SQ]STAR SQ)', flags=re.M)
+       lex_re  = re.compile(b'<!--.LAZY-->|<!\[CDATA\[.LAZY\]\]>'
+                            b'|<(Lexicon|LexiconExtension|Extends)\b((?:[^>DQSQ]|DQ[^DQ]STAR DQ|SQ[^SQ]STAR SQ)STAR)>',
+                            flags=re.M | re.S)
+       attr_re = re.compile(b'([^\s=<>DQSQ/]+)\sSTAR=\sSTAR(DQ[^DQ]STAR DQ|SQ[^SQ]STAR SQ)', flags=re.M)
        with open(source, 'rb') as fh:
            for m in lex_re.finditer(fh.read()):
                lextype, remainder = m.groups()
+               if lextype is None: continue          # a comment or a CDATA section
                attrs = {_m.group(1).decode('utf-8'): _unescape_attribute(_m.group(2)[1:-1].decode('utf-8'))
-                        for _m in attr_re.finditer(remainder)}
+                        for _m in attr_re.finditer(remainder)
+                        if _m.group(1) in (b'id', b'version', b'label')}
                info = {'id': attrs['id'], 'version': attrs['version'], 'label': attrs.get('label'), 'extends': None}
                if 'id' not in info or 'version' not in info: raise LMFError(...)      # unreachable
                if lextype != b'Extends': infos.append(info)
@@ -22,21 +26,34 @@
    The two regular expressions are modelled by hand-written scanners over byte
    lists which follow the backtracking semantics of Python's re:
 
-   - lex_re.  A match can only start at a '<'.  The three names are tried in the
-     order of the alternation, each followed by the word-boundary test (bytes
-     pattern: a word character is [A-Za-z0-9_]) and by the remainder.  The
-     remainder group is deterministic: outside quotes a character other than
-     '>', DQ, SQ is consumed by the first alternative only, a quote character can
-     only be consumed by its quoted alternative, whose [^q]STAR must run to the next
-     q, and '>' cannot be consumed at all — so the star can only stop at the first
-     unquoted '>', and giving iterations back never helps (the character given back
-     is not '>').  An unclosed quote or the end of the input makes the attempt at
-     this '<' fail, and the search resumes at the next position.  After a match
-     the search resumes after the '>' (finditer: non-overlapping).
-   - attr_re, over the remainder (a bytes object of its own, so position 0 has no
-     left neighbour).  The names start with a word character, so the \b holds iff
-     the previous character is not a word character (or there is none).  \s is
-     [ \t\n\r\f\v].  After a match the search resumes after the closing quote.
+   - lex_re.  A match can only start at a '<'; at each position the alternatives
+     are tried from left to right.
+     Comment: the text starts with '<!--' and a '-->' occurs at or after the end
+     of these four characters; the non-greedy dot (re.S: any byte) stops at the
+     FIRST such '-->'.  CDATA section: the same with '<![CDATA[' and ']]>'.  These
+     two matches have no group 1 and are skipped by the loop, but the search
+     resumes after them (finditer: non-overlapping), so whatever they contain is
+     never examined.  An unterminated '<!--' matches nothing; the other
+     alternatives cannot match there either.
+     Tag: the three names are tried in the order of the alternation, each followed
+     by the word-boundary test (bytes pattern: a word character is [A-Za-z0-9_])
+     and by the remainder.  The remainder group is deterministic: outside quotes a
+     character other than '>', DQ, SQ is consumed by the first alternative only, a
+     quote character can only be consumed by its quoted alternative, whose
+     [^q]STAR must run to the next q, and '>' cannot be consumed at all — so the
+     star can only stop at the first unquoted '>', and giving iterations back never
+     helps (the character given back is not '>').  An unclosed quote or the end of
+     the input makes the attempt at this '<' fail, and the search resumes at the
+     next position.  A '<!--' inside the remainder of a tag belongs to the tag:
+     the tag is matched at its own '<', before the position of the '<!--' is reached.
+   - attr_re, over the remainder: a name is a non-empty run of bytes other than
+     white space, '=', '<', '>', quotes and '/'.  The greedy run is maximal, and
+     giving bytes back never helps (the byte given back is neither white space nor
+     '='); a failed attempt is retried one byte further (inside the same run it
+     fails again for the same reason).  \s is [ \t\n\r\f\v].  After a match the
+     search resumes after the closing quote.  Only the matches whose name is
+     exactly id, version or label enter the dictionary (and only their values are
+     decoded).
 
    Errors: KeyError (attrs['id'], attrs['version']) -> EKey; LMFError -> ELmf;
    UnicodeDecodeError (a captured value that is not UTF-8), ValueError /
@@ -298,7 +315,7 @@ Definition try_name (t : lextype) (r : str) : option (lextype * str * str) :=
     else None
   else None.
 
-(* a match attempt right after a '<' *)
+(* the tag alternative, right after a '<' *)
 Definition lex_at (r : str) : option (lextype * str * str) :=
   match try_name TLexicon r with
   | Some m => Some m
@@ -308,7 +325,25 @@ Definition lex_at (r : str) : option (lextype * str * str) :=
             end
   end.
 
-(* lex_re.finditer(data): (lextype, remainder) of every match *)
+(* the text after the first occurrence of [pat] *)
+Fixpoint find_after (pat : str) (s : str) : option str :=
+  if prefixb pat s then Some (skipn (length pat) s)
+  else match s with
+       | [] => None
+       | _ :: r => find_after pat r
+       end.
+
+(* [opening] (without its '<') ... first [closing]: the text after the section *)
+Definition section_at (opening closing : str) (r : str) : option str :=
+  if prefixb opening r then find_after closing (skipn (length opening) r) else None.
+(* the first two alternatives, right after a '<': a comment or a CDATA section *)
+Definition skip_at (r : str) : option str :=
+  match section_at (s_ "!--") (s_ "-->") r with
+  | Some rest => Some rest
+  | None => section_at (s_ "![CDATA[") (s_ "]]>") r
+  end.
+
+(* lex_re.finditer(data): (lextype, remainder) of every match that has a group 1 *)
 Fixpoint lex_all (fuel : nat) (s : str) : list (lextype * str) :=
   match fuel with
   | O => []
@@ -317,9 +352,13 @@ Fixpoint lex_all (fuel : nat) (s : str) : list (lextype * str) :=
       | [] => []
       | c :: r =>
           if Z.eqb c c_lt then
-            match lex_at r with
-            | Some (t, rem, rest) => (t, rem) :: lex_all f rest
-            | None => lex_all f r
+            match skip_at r with
+            | Some rest => lex_all f rest
+            | None =>
+                match lex_at r with
+                | Some (t, rem, rest) => (t, rem) :: lex_all f rest
+                | None => lex_all f r
+                end
             end
           else lex_all f r
       end
@@ -357,41 +396,49 @@ Definition attr_tail (r : str) : option (str * str) :=
   | [] => None
   end.
 
-Definition try_attr (n : attrname) (s : str) : option (attrname * str * str) :=
-  let nm := attrname_str n in
-  if prefixb nm s then
-    match attr_tail (skipn (length nm) s) with
-    | Some (v, rest) => Some (n, v, rest)
-    | None => None
-    end
-  else None.
+(* a byte of an attribute name *)
+Definition is_namebyte (c : Z) : bool :=
+  negb (is_bspace c || Z.eqb c 61 || Z.eqb c c_lt || Z.eqb c c_gt || is_quote c || Z.eqb c 47).
 
-(* a match attempt at a position where \b holds *)
-Definition attr_at (s : str) : option (attrname * str * str) :=
-  match try_attr NId s with
-  | Some m => Some m
-  | None => match try_attr NVersion s with
-            | Some m => Some m
-            | None => try_attr NLabel s
-            end
+(* a match attempt: name, value (between the quotes), rest *)
+Definition attr_at (s : str) : option (str * str * str) :=
+  match span is_namebyte s with
+  | ((_ :: _) as nm, r) =>
+      match attr_tail r with
+      | Some (v, rest) => Some (nm, v, rest)
+      | None => None
+      end
+  | _ => None
   end.
 
-(* attr_re.finditer(remainder); [prevw]: the previous character is a word character *)
-Fixpoint attr_all (fuel : nat) (prevw : bool) (s : str) : list (attrname * str) :=
+(* attr_re.finditer(remainder) *)
+Fixpoint attr_all (fuel : nat) (s : str) : list (str * str) :=
   match fuel with
   | O => []
   | S f =>
       match s with
       | [] => []
       | c :: r =>
-          match (if prevw then None else attr_at s) with
-          | Some (n, v, rest) => (n, v) :: attr_all f false rest   (* previous = closing quote *)
-          | None => attr_all f (is_word c) r
+          match attr_at s with
+          | Some (nm, v, rest) => (nm, v) :: attr_all f rest
+          | None => attr_all f r
           end
       end
   end.
+Definition attr_tokens (remainder : str) : list (str * str) :=
+  attr_all (S (length remainder)) remainder.
+
+(* _m.group(1) in (b'id', b'version', b'label') *)
+Definition scanned_of (nm : str) : option attrname :=
+  if str_eqb nm (s_ "id") then Some NId
+  else if str_eqb nm (s_ "version") then Some NVersion
+  else if str_eqb nm (s_ "label") then Some NLabel
+  else None.
+Definition attr_sel (m : str * str) : list (attrname * str) :=
+  match scanned_of (fst m) with Some n => [(n, snd m)] | None => [] end.
+(* the matches that enter the dictionary *)
 Definition attr_matches (remainder : str) : list (attrname * str) :=
-  attr_all (S (length remainder)) false remainder.
+  flat_map attr_sel (attr_tokens remainder).
 
 (* ====================================================================== *)
 (* scan_lexicons                                                          *)
@@ -494,6 +541,6 @@ Example utf8_ex : utf8_decode [195; 169; 240; 157; 146; 179; 226; 130; 172; 65] 
                   /\ utf8_decode [255] = None /\ utf8_decode [237; 160; 128] = None /\ utf8_decode [192; 128] = None.
 Proof. vm_compute. repeat split. Qed.
 Example scan_ex :
-  scan_lexicons (s_ "<LexiconExtension id=""x"" version=""1"" label='e'><Extends id=""b"" version=""2""/><Lexicons id=""no""><Lexicon id = 'a>' xversion=""9"" version=""3"">")
+  scan_lexicons (s_ "<!-- <Lexicon id=""c"" version=""0""> --><LexiconExtension id=""x"" version=""1"" label='e' url='see version=""2"" there'><Extends id=""b"" version=""2""/><![CDATA[<Extends id=""q"" version=""7"">]]><Lexicons id=""no""><Lexicon id = 'a>' xversion=""9"" my-version=""8"" version=""3"" note=""<!--"">")
   = Ok [mkInfo (s_ "x") (s_ "1") (Some (s_ "e")) (Some (s_ "b", s_ "2")); mkInfo (s_ "a>") (s_ "3") None None].
 Proof. vm_compute. reflexivity. Qed.
